@@ -24,7 +24,7 @@ func drawWord(t *rapid.T, maxLen int) string {
 func TestC29(t *testing.T) {
 	col := ev.New("C29", "rapid: printable ASCII texts of 0-300 bytes built from words of length 1-40 (sometimes up to 120, "+
 		"i.e. longer than a line) separated by runs of 1-4 spaces, no leading space, optional trailing spaces, no newline; "+
-		"indentation 0-5 tabs (a sixth of the cases 6-25); width such that width-8*indent >= 1 (boundary widths 1,2, word length +-1 preferred). "+
+		"indentation 0-5 tabs (a sixth of the cases 6-25); every text wrapped twice, with two independently drawn widths; width such that width-8*indent >= 1 (boundary widths 1,2, word length +-1 preferred). "+
 		"Validity oracle: terminates (30 s watchdog), every line = indent tabs + body with len(body) <= remaining width and no "+
 		"leading space, non-space characters of all bodies concatenated = those of the input in order, a word is split only "+
 		"when it is longer than the remaining width. non-trivial = text needing >=2 lines with a word longer than the "+
@@ -66,105 +66,117 @@ func TestC29(t *testing.T) {
 			}
 			width := chars + 8*indent
 
-			done := make(chan string, 1)
-			var crash string
-			go func() {
+			// every text is wrapped twice: the second time with the same indentation
+			// but another width (a result must not depend on earlier calls)
+			for pass := 0; pass < 2; pass++ {
+				if pass == 1 {
+					chars = 1 + uniformInt(t, 90, "chars2")
+					if uniformInt(t, 3, "chars2Small") == 0 {
+						chars = 1 + uniformInt(t, 12, "chars2s")
+					}
+					width = chars + 8*indent
+					col.Case()
+				}
+				done := make(chan string, 1)
+				var crash string
+				go func() {
+					var out string
+					crash = catch(func() { out = consoleui.VerifFormat(s, indent, width) })
+					done <- out
+				}()
 				var out string
-				crash = catch(func() { out = consoleui.VerifFormat(s, indent, width) })
-				done <- out
-			}()
-			var out string
-			select {
-			case out = <-done:
-			case <-time.After(30 * time.Second):
-				t.Fatalf("format(%q, %d, %d) did not terminate within 30 s", s, indent, width)
-			}
-			if crash != "" {
-				t.Fatalf("format(%q, %d, %d): %s", s, indent, width, crash)
-			}
-			desc := fmt.Sprintf("format(%q, indent %d, width %d)", s, indent, width)
+				select {
+				case out = <-done:
+				case <-time.After(30 * time.Second):
+					t.Fatalf("format(%q, %d, %d) did not terminate within 30 s", s, indent, width)
+				}
+				if crash != "" {
+					t.Fatalf("format(%q, %d, %d): %s", s, indent, width, crash)
+				}
+				desc := fmt.Sprintf("format(%q, indent %d, width %d)", s, indent, width)
 
-			if s == "" {
-				if out != "" {
-					t.Fatalf("%s of the empty text = %q", desc, out)
-				}
-				col.Class("empty")
-				continue
-			}
-			if !strings.HasSuffix(out, "\n") {
-				t.Fatalf("%s = %q does not end with a newline", desc, out)
-			}
-			lines := strings.Split(strings.TrimSuffix(out, "\n"), "\n")
-			var joined strings.Builder
-			pos := 0 // position in s of the next unconsumed non-space char
-			nonSpace := func(x string) string { return strings.ReplaceAll(x, " ", "") }
-			splitWordTooShort := false
-			for li, ln := range lines {
-				tabs := strings.Repeat("\t", indent)
-				if !strings.HasPrefix(ln, tabs) {
-					t.Fatalf("%s: line %d %q does not start with %d tabs", desc, li, ln, indent)
-				}
-				body := ln[len(tabs):]
-				if strings.HasPrefix(body, "\t") {
-					t.Fatalf("%s: line %d has more than %d tabs", desc, li, indent)
-				}
-				if len(body) > chars {
-					t.Fatalf("%s: line %d body %q has %d characters, only %d fit", desc, li, body, len(body), chars)
-				}
-				if strings.HasPrefix(body, " ") {
-					t.Fatalf("%s: line %d body %q starts with a space", desc, li, body)
-				}
-				// locate the body's non-space characters in s
-				ns := nonSpace(body)
-				joined.WriteString(ns)
-				// advance pos over ns characters of s
-				cnt := 0
-				for pos < len(s) && cnt < len(ns) {
-					if s[pos] != ' ' {
-						cnt++
+				if s == "" {
+					if out != "" {
+						t.Fatalf("%s of the empty text = %q", desc, out)
 					}
-					pos++
+					col.Class("empty")
+					continue
 				}
-				// a split inside a word: s[pos-1] and s[pos] both non-space
-				if li < len(lines)-1 && pos > 0 && pos < len(s) && s[pos-1] != ' ' && s[pos] != ' ' {
-					// find the word
-					b, e := pos-1, pos
-					for b > 0 && s[b-1] != ' ' {
-						b--
+				if !strings.HasSuffix(out, "\n") {
+					t.Fatalf("%s = %q does not end with a newline", desc, out)
+				}
+				lines := strings.Split(strings.TrimSuffix(out, "\n"), "\n")
+				var joined strings.Builder
+				pos := 0 // position in s of the next unconsumed non-space char
+				nonSpace := func(x string) string { return strings.ReplaceAll(x, " ", "") }
+				splitWordTooShort := false
+				for li, ln := range lines {
+					tabs := strings.Repeat("\t", indent)
+					if !strings.HasPrefix(ln, tabs) {
+						t.Fatalf("%s: line %d %q does not start with %d tabs", desc, li, ln, indent)
 					}
-					for e < len(s) && s[e] != ' ' {
-						e++
+					body := ln[len(tabs):]
+					if strings.HasPrefix(body, "\t") {
+						t.Fatalf("%s: line %d has more than %d tabs", desc, li, indent)
 					}
-					if e-b <= chars {
-						splitWordTooShort = true
-						t.Fatalf("%s: word %q of %d characters was split although %d characters fit on a line\n  output %q", desc, s[b:e], e-b, chars, out)
+					if len(body) > chars {
+						t.Fatalf("%s: line %d body %q has %d characters, only %d fit", desc, li, body, len(body), chars)
+					}
+					if strings.HasPrefix(body, " ") {
+						t.Fatalf("%s: line %d body %q starts with a space", desc, li, body)
+					}
+					// locate the body's non-space characters in s
+					ns := nonSpace(body)
+					joined.WriteString(ns)
+					// advance pos over ns characters of s
+					cnt := 0
+					for pos < len(s) && cnt < len(ns) {
+						if s[pos] != ' ' {
+							cnt++
+						}
+						pos++
+					}
+					// a split inside a word: s[pos-1] and s[pos] both non-space
+					if li < len(lines)-1 && pos > 0 && pos < len(s) && s[pos-1] != ' ' && s[pos] != ' ' {
+						// find the word
+						b, e := pos-1, pos
+						for b > 0 && s[b-1] != ' ' {
+							b--
+						}
+						for e < len(s) && s[e] != ' ' {
+							e++
+						}
+						if e-b <= chars {
+							splitWordTooShort = true
+							t.Fatalf("%s: word %q of %d characters was split although %d characters fit on a line\n  output %q", desc, s[b:e], e-b, chars, out)
+						}
 					}
 				}
-			}
-			_ = splitWordTooShort
-			if joined.String() != nonSpace(s) {
-				t.Fatalf("%s loses or reorders characters:\n  output %q", desc, out)
-			}
-			longWord := false
-			for _, w := range strings.Fields(s) {
-				if len(w) > chars {
-					longWord = true
+				_ = splitWordTooShort
+				if joined.String() != nonSpace(s) {
+					t.Fatalf("%s loses or reorders characters:\n  output %q", desc, out)
 				}
-			}
-			switch {
-			case len(lines) >= 2 && longWord:
-				col.Class("multi-line/long-word")
-				col.Nontrivial(desc)
-			case len(lines) >= 2:
-				col.Class("multi-line")
-				col.Nontrivial(desc)
-			default:
-				col.Class("single-line")
-			}
-			if col.WantSample() {
-				col.Sample(map[string]interface{}{"text": s, "indent": indent, "width": width, "lines": len(lines)})
-			} else {
-				col.SkipSample()
+				longWord := false
+				for _, w := range strings.Fields(s) {
+					if len(w) > chars {
+						longWord = true
+					}
+				}
+				switch {
+				case len(lines) >= 2 && longWord:
+					col.Class("multi-line/long-word")
+					col.Nontrivial(desc)
+				case len(lines) >= 2:
+					col.Class("multi-line")
+					col.Nontrivial(desc)
+				default:
+					col.Class("single-line")
+				}
+				if col.WantSample() {
+					col.Sample(map[string]interface{}{"text": s, "indent": indent, "width": width, "lines": len(lines)})
+				} else {
+					col.SkipSample()
+				}
 			}
 		}
 	})
